@@ -227,6 +227,8 @@ type FuncContract struct {
 	ResNames  []string        // names for results (from header)
 	Opts      map[string]string
 	Uses      []string // lemmas assumed at function entry
+	FieldOf   string   // funcfield contracts: struct type name
+	FieldName string   //                      field name
 	SrcFile   string
 	HeaderPos string
 }
